@@ -467,6 +467,31 @@ func genProto() (string, error) {
 		}
 		fmt.Fprintf(&b, "def src_%s : String := %q\n", fn, g.StmtsText(fd.Body.List))
 	}
+	// the walker behind the critical-message check: does it reach the elements of repeated message fields?
+	if fd := uf.FindFunc("", "detectUnknownProtoFields"); fd != nil {
+		fmt.Fprintf(&b, "def src_detectUnknownProtoFields : String := %q\n", g.StmtsText(fd.Body.List))
+		earlyReturn, recurses := false, false
+		ast.Inspect(fd.Body, func(n ast.Node) bool {
+			switch x := n.(type) {
+			case *ast.IfStmt:
+				if g.ExprText(x.Cond) == "fd.IsList()" {
+					for _, st := range x.Body.List {
+						if _, ok := st.(*ast.ReturnStmt); ok {
+							earlyReturn = true // the list-length test leaves the callback before the recursion below
+						}
+					}
+				}
+			case *ast.CaseClause:
+				if len(x.List) == 1 && g.ExprText(x.List[0]) == "fd.IsList()" && strings.Contains(g.StmtsText(x.Body), "detectUnknownProtoFields(list.Get(i).Message(), depth + 1)") {
+					recurses = true
+				}
+			}
+			return true
+		})
+		fmt.Fprintf(&b, "/-- `detectUnknownProtoFields` inspects every element of a repeated message field (the list-length test does not return first, and the list case recurses) -/\ndef walkerInspectsListElements : Bool := %v\n", recurses && !earlyReturn)
+	} else {
+		return "", fmt.Errorf("lib/util.go: detectUnknownProtoFields not found")
+	}
 	// the set of 'critical' message types of Unmarshal (type switch)
 	if fd := uf.FindFunc("", "Unmarshal"); fd != nil {
 		var crit []string
